@@ -40,6 +40,9 @@ def run_history(args, monitor_classes, res, weights=None, driver_kw=None, setup=
         cfg = {"fe": args["fe"], "prefix": args.get("prefix", "/"), "seed": hseed, "steps": args["steps"], "bare": args.get("bare", True)}
         w = W.World(base, fe_kind=args["fe"], prefix=args.get("prefix", "/"), seed=hseed, agent=args.get("agent"), extra_args=args.get("extra_args", ()))
         w.res = res
+        if args.get("server_gitconfig"):
+            w.server_gitconfig = args["server_gitconfig"]
+            res.count("histories_with_a_git_configuration_for_the_server_account")
         t0 = time.monotonic()
         try:
             # principal + home sets exist before bare repositories are put there
